@@ -236,6 +236,69 @@ func (c *Ctx) applyCallRules(id calleeID, site string, args []*Val, cc *ssa.Call
 	}
 }
 
+// chanFieldName: "T.field" when the channel operand is loaded from that struct field
+func chanFieldName(ch ssa.Value) string {
+	if ld, ok := ch.(*ssa.UnOp); ok && ld.Op == token.MUL {
+		if fa, ok := ld.X.(*ssa.FieldAddr); ok {
+			return fieldName(fa)
+		}
+	}
+	return ""
+}
+
+// applyChanRules: a send on a channel held in a struct field is an event callrules can
+// name as callee "chansend(T.field)"; a0 is the value sent. Receives that are select cases
+// are events too: "chanrecv(T.field)", a0 is the value received. `taken` says when the send
+// really happens (a select case: the select answered its index). The rule's requires are
+// obligations under `taken`; its defines/ensures are assumed under `taken`, and the ghost
+// fields it assigns keep their value otherwise.
+func (c *Ctx) applyChanRules(kind, chName string, val *Val, taken string, st *State) {
+	callee := kind + "(" + chName + ")"
+	c.callSeq[callee]++
+	site := fmt.Sprintf("%s[%s#%d]", strings.TrimPrefix(kind, "chan"), chName, c.callSeq[callee])
+	for _, r := range c.activeRules {
+		if !matchAny(r.Callees, callee) || matchAny(r.Except, callee) {
+			continue
+		}
+		c.ruleHits[r.Name]++
+		env := c.baseEnv(st, c.entry)
+		env.names["a0"] = val
+		for i, rq := range r.Requires {
+			label := rq.Label
+			if label == "" {
+				label = fmt.Sprint(i + 1)
+			}
+			cond := c.evalBool(rq.E, env, "callrule "+r.Name)
+			o := c.addObl("G", fmt.Sprintf("%s.%s.rule[%s.%s]", c.fnName(), site, r.Name, label), sImp(taken, cond), rq.Src)
+			o.Props = r.Props
+		}
+		if len(r.Ensures) == 0 {
+			continue
+		}
+		pre := st.clone()
+		for _, a := range r.Assigns {
+			name := "G|" + a
+			g, ok := c.P.CS.Ghosts[a]
+			if !ok {
+				c.specErr("callrule %s on a channel send may only assign ghost fields (got %s)", r.Name, a)
+				continue
+			}
+			c.registerMap(name, c.ghostMapSort(g))
+			oldm := c.lookup(st, name)
+			st.over[name] = c.fresh1(name+"@s", c.heapSorts[name])
+			if taken != "true" {
+				c.assumeHere(sImp(sNot(taken), sEq(st.over[name], oldm)))
+			}
+		}
+		env2 := c.baseEnv(st, pre)
+		env2.names["a0"] = val
+		for _, e := range r.Ensures {
+			c.assumeHere(sImp(taken, c.evalBool(e.E, env2, "callrule ensures "+r.Name)))
+			c.definesUsed["callrule "+r.Name+" on "+callee+": "+e.Src] = true
+		}
+	}
+}
+
 // ---------------------------------------------------------------- frame scan
 
 // effect patterns:
